@@ -50,7 +50,9 @@ impl Gate {
                 log: Vec::new(),
             }),
             cv: Condvar::new(),
-            late_after: Duration::from_millis(200),
+            // generous: on today's code every unit arrives within microseconds; the fallback only
+            // matters after a refactor (or under extreme machine overload)
+            late_after: Duration::from_millis(1000),
         })
     }
 
